@@ -935,7 +935,7 @@ Qed.
 Definition po0 : popts := mkPopts false false false false true false.
 
 Definition rd_covers (ty : Z) (rd : rdata) : Z :=
-  if ty =? tRRSIG then match rd with PB (a :: b :: _) :: _ => a * 256 + b | _ => 0 end else 0.
+  if is_sigtype ty then match rd with PB (a :: b :: _) :: _ => a * 256 + b | _ => 0 end else 0.
 
 (* what the wire holds at off: an RR that reads back as (owner', ty, cl, ttl, rd') and ends at end_ *)
 Definition RRreads (o ro : option name) (w : list Z) (off : nat) (abs' owner' : name) (ty cl ttl : Z) (fs : list fld)
@@ -974,5 +974,5 @@ Proof.
   rewrite Nat.eqb_refl. cbn [bind].
   destruct (Z.gtb_spec ttl 2147483647); [lia|].
   unfold po0. cbn [p_xfr andb orb]. rewrite orb_false_r. unfold rd_covers.
-  rewrite ?E1, ?E2. destruct (ty =? tRRSIG); reflexivity.
+  rewrite ?E1, ?E2. destruct (is_sigtype ty); reflexivity.
 Qed.
